@@ -70,6 +70,8 @@ static void ParamError(Boolean InEnv, char* Arg) {
 #define BufferSize 4096
 static Byte Buffer[BufferSize];
 
+static LongWord SelectedBytes(LongWord From, LongWord To);
+
 static void OpenTarget(void) {
     LongWord Rest, Trans, AHeader;
 
@@ -77,7 +79,12 @@ static void OpenTarget(void) {
     if (!TargFile) {
         ChkIO(TargName);
     }
-    RealFileLen = ((StopAdr - StartAdr + 1) * MaxGran) / SizeDiv;
+    /* a window that is no multiple of the lane period holds a selected byte more or less */
+
+    RealFileLen = (StopAdr - StartAdr + 1) * MaxGran;
+    if (SizeDiv != 1) {
+        RealFileLen = SelectedBytes(StartAdr * MaxGran, StartAdr * MaxGran + RealFileLen);
+    }
 
     AHeader = abs(StartHeader);
     if (StartHeader != 0) {
